@@ -28,6 +28,8 @@ type skipOut struct {
 	panic interface{}
 	note  string // content/position mismatch observed by the runner itself
 	ran   bool
+	// secondCall describes a disagreement of a follow-up call on the same decoder instance
+	secondCall string
 }
 
 func (o skipOut) String() string {
@@ -103,6 +105,24 @@ func runSkipper(which int, b []byte, t byte, r *rand.Rand, sched int, withData b
 					o.note = "returned bytes differ from input prefix"
 				} else if nb.RI != len(out) {
 					o.note = fmt.Sprintf("reader consumed %d, returned %d bytes", nb.RI, len(out))
+				}
+			} else if nb.RI == 0 {
+				// a rejected Next consumed nothing from the reader: a second Next on the same decoder
+				// starts from the same stream position and must agree with the grammar again
+				for _, t2 := range []byte{ref.BYTE, ref.I32, ref.I64, ref.STRING} {
+					p2 := ref.Parse(b, t2)
+					out2, err2 := d.Next(thrift.TType(t2))
+					if p2.OK && (err2 != nil || len(out2) != p2.N) {
+						o.secondCall = fmt.Sprintf("after a rejected Next(type %d), Next(type %d) on the same decoder returned %d bytes err=%v; the grammar gives %d", t, t2, len(out2), err2, p2.N)
+						break
+					}
+					if !p2.OK && err2 == nil {
+						o.secondCall = fmt.Sprintf("after a rejected Next(type %d), Next(type %d) on the same decoder accepted %d bytes of a malformed value", t, t2, len(out2))
+						break
+					}
+					if err2 == nil {
+						break // the reader advanced: later calls see other bytes
+					}
 				}
 			}
 			return o
